@@ -207,6 +207,10 @@ fn exec(op: &Op) -> String {
                 }
             }
             let text = s.to_string();
+            // description_as_str() is the DESCRIPTION lines joined by newlines
+            if s.description_as_str() != s.description().map(|d| d.join("\n")) {
+                return "DESCRIPTION-AS-STR-DIFFERS".into();
+            }
             format!(
                 "{}|{}|{}|{}",
                 getters(&s),
@@ -226,6 +230,13 @@ fn exec(op: &Op) -> String {
                     Err(e) if e.kind() == std::io::ErrorKind::InvalidData => format!("err/{}", n),
                     Err(_) => format!("errother/{}", n),
                 });
+            }
+            // flush() has nothing to do and entries_mut() is the same list
+            if std::io::Write::flush(&mut st).is_err() {
+                return "FLUSH-FAILED".into();
+            }
+            if st.entries_mut().len() != st.entries().len() {
+                return "ENTRIES-MUT-DIFFERS".into();
             }
             format!(
                 "{}|{}|{}|{}",
